@@ -32,7 +32,7 @@ S = "antismash/common/secmet/"
 OPAQUE_TYPES = ("gene", "CDS", "CDS_motif", "aSDomain", "PFAM_domain", "aSModule", "source")
 BASE_KEYS = ("note", "tool", "codon_start")
 KF_ORDER = "KF-C10-inconsistent-area-order"
-KF_PREPEPTIDE = "KF-C10-reverse-prepeptide-location"
+KF_PREPEPTIDE = "KF-C10-prepeptide-location-parts"
 KF_FUNCTION = "KF-C10-gene-function-colon"
 WORKERS = max(2, min(8, (os.cpu_count() or 4) // 2))
 
@@ -644,10 +644,12 @@ class C10(Property):
                 case["annot"].append(ann)
             # precursor peptides: leader, core and tail written as three features, rebuilt from the core
             total_aa = total // 3
-            if total_aa >= 3 and total % 3 == 0 and not gloc["c"] and rng.random() < 0.3 and not name.endswith("x"):
-                if gloc["parts"][0][2] == 1 or rng.random() < 0.15:
-                    lead = rng.choice([0, 1, total_aa // 3])
-                    tail = rng.choice([0, 0, 1]) if total_aa - lead >= 2 else 0
+            # (on single-exon, multi-exon and origin-spanning genes of both strands; not on `order` locations)
+            if total_aa >= 3 and total % 3 == 0 and gloc.get("op") is None and not name.endswith("x") and \
+                    rng.random() < (0.7 if name.startswith("cspan") else 0.3):
+                if True:
+                    lead = rng.choice([0, 1, total_aa // 3, total_aa // 2])
+                    tail = rng.choice([0, 0, 1, (total_aa - lead) // 2]) if total_aa - lead >= 2 else 0
                     core = total_aa - lead - tail
                     case["prepeptides"].append({
                         "cds": name, "class": rng.choice(["lanthipeptide", "sactipeptide", "thiopeptide"]),
@@ -884,11 +886,11 @@ class C10(Property):
             return None
         line = {"f": "record", "rec": for_model(obs["state"]), "re_gb": for_model(obs["re_gb"]),
                 "re_json": for_model(obs["re_json"])}
-        if any(_reverse_prepeptide(f) for f in obs["state"]["others"]):
-            # recorded finding KF-C10-reverse-prepeptide-location: such prepeptides are judged on their attribute
-            # dumps (with the part structure of the location set aside), not by the Lean view
+        if obs["state"]["pre_locs"]:
+            # prepeptides are judged on their attribute dumps (where the recorded finding
+            # KF-C10-prepeptide-location-parts can set the part structure of the location aside), not by the Lean view
             def without(state: Dict[str, Any]) -> Dict[str, Any]:
-                return dict(state, others=[f for f in state["others"] if not _reverse_prepeptide(f)])
+                return dict(state, others=[f for f in state["others"] if not _is_prepeptide(f)])
             line["spec_rec"] = without(line["rec"])
             line["re_gb"] = without(line["re_gb"])
             line["re_json"] = without(line["re_json"])
@@ -986,9 +988,7 @@ class C10(Property):
     def _known_class(case: Dict[str, Any], obs: Dict[str, Any]) -> Optional[str]:
         """the recorded attribute-level findings (known_findings.json); a case belongs to one of them only when,
         apart from exactly what the finding describes, no attribute of any feature differs"""
-        strands = {q[1][0]: f["loc"]["parts"][0][2] for f in case.get("input", []) if f["type"] == "CDS"
-                   for q in f["quals"] if q[0] == "locus_tag"}
-        reverse_pre = any(strands.get(p["cds"]) == -1 for p in case.get("prepeptides", []))
+        reverse_pre = bool(case.get("prepeptides"))
         colon = any(product is None and ": " in desc for a in case.get("annot", []) for _f, _t, desc, product in a["functions"])
 
         def blur(obj: Any, pre: bool, func: bool) -> Any:
@@ -996,10 +996,9 @@ class C10(Property):
                 return [blur(x, pre, func) for x in obj]
             if not isinstance(obj, dict):
                 return obj
-            if pre and obj.get("cls") == "Prepeptide" and obj["@loc"]["parts"][0][2] == -1:
-                lo = min(p[0] for p in obj["@loc"]["parts"])
-                hi = max(p[1] for p in obj["@loc"]["parts"])
-                obj = dict(obj, **{"@loc": [lo, hi]})
+            if pre and obj.get("cls") == "Prepeptide":
+                # the same bases in the same transcription order, whatever the cut into parts
+                obj = dict(obj, **{"@loc": merge_in_transcription_order(obj["@loc"]["parts"])})
             if func and obj.get("cls") == "_GeneFunctionAnnotation":
                 text = obj["description"] if not obj["product"] else f"{obj['product']}: {obj['description']}"
                 return {"cls": obj["cls"], "function": obj["function"], "tool": obj["tool"], "text": text}
@@ -1043,9 +1042,25 @@ class C10(Property):
             yield dict(case, regions=False)
 
 
-def _reverse_prepeptide(feat: Dict[str, Any]) -> bool:
-    return feat["type"] == "CDS_motif" and feat["loc"]["parts"][0][2] == -1 and \
-        any(q[0] == "prepeptide" for q in feat["quals"])
+def _is_prepeptide(feat: Dict[str, Any]) -> bool:
+    return feat["type"] == "CDS_motif" and any(q[0] == "prepeptide" for q in feat["quals"])
+
+
+def merge_in_transcription_order(parts: List[List[Any]]) -> List[List[Any]]:
+    """parts (given in transcription order) with two consecutive ones joined when the second continues exactly
+    where the first stops: upwards on the forward strand, downwards on the reverse strand"""
+    out: List[List[Any]] = []
+    for lo, hi, strand in parts:
+        if out and out[-1][2] == strand:
+            plo, phi, _ = out[-1]
+            if strand == -1 and hi == plo:
+                out[-1] = [lo, phi, strand]
+                continue
+            if strand != -1 and lo == phi:
+                out[-1] = [plo, hi, strand]
+                continue
+        out.append([lo, hi, strand])
+    return out
 
 
 def _prune(case: Dict[str, Any]) -> None:
